@@ -122,6 +122,28 @@ CLAIMS["C06"] = dict(
               "cache hits)",
     ref="3/C06")
 
+CLAIMS["C14"] = dict(
+    text="The real basin machinery (shadow of core.py: basins_retrieve, "
+         "basins, features_basin, ignore_basins, _get_basin_feature_data, "
+         "__getitem__/__contains__; shadow of feat_basin.py: Basin.__init__/"
+         "ds/features/verify_basin/get_feature_data/load_dataset, BasinProxy) "
+         "runs over a stub universe of files in which the basin reference "
+         "graph (incl. self references and cycles), target formats, "
+         "availability and run identifiers are symbolic decisions explored "
+         "exhaustively by the engine; every scenario is checked for "
+         "termination (opening budget), identity (offered feature => chain of "
+         "matching, available, permitted hops), isolation (no file-type basin "
+         "below a remote dataset), completeness for a direct valid basin and "
+         "absence of escaping exceptions.",
+    note="Trusted: symx, the stub dataset/basin subclasses (format, "
+         "availability, _load_dataset). Bounds: 3 (4) files, identifiers "
+         "from 6 relation classes. The deciding step here is exhaustive "
+         "path exploration steered by z3 feasibility over boolean decision "
+         "variables; all assertions are concrete per path.",
+    technique="symbolic execution (solver-steered exhaustive exploration of "
+              "boolean configuration variables) of the real Python code",
+    ref="3/C14")
+
 NOT_APPLICABLE = {
 }
 
